@@ -164,7 +164,7 @@ func runSstDmg(res *Result, drv *Driver, seed uint64, n int, tier string, only i
 	}
 	defer os.RemoveAll(root)
 	res.Rule = "small generated tables under each data compression type x {every byte offset of data.rio x (8 bit flips, 0x00, 0xff, marker bytes), every truncation length, swapped neighbouring records} " +
-		"x {verify on load (default options), skip-on-load + verify on every read}; one evaluation = one returned value checked or one model comparison; " +
+		"x {verify on load (default options), skip-on-load + verify on every read} x {slice always; skip-list, map4, map20 loaders in rotation}; one evaluation = one returned value checked or one model comparison; " +
 		"non-trivial = damaged file differs from the original; distinct = distinct (table, damaged bytes)"
 	for idx := 0; idx < n; idx++ {
 		if only >= 0 && idx != only {
@@ -220,13 +220,20 @@ func sstDmgOne(res *Result, drv *Driver, r *Rng, t *sstDmgTable, idx int, dir st
 	for _, p := range probes {
 		probeStrs = append(probeStrs, p.String())
 	}
-	cfgs := []sstReaderCfg{{"slice-default", true, false}, {"slice", false, true}}
+	// every damaged file is read through the slice loader in both verification modes and, in rotation,
+	// through the skip-list, Byte4-map and Byte20-map loaders in both modes (keys are at most 4 bytes)
+	extraLoaders := []string{"skip", "map4", "map20"}
+	dmgCount := 0
 	dataPath := filepath.Join(dir, sstables.DataFileName)
 
 	check := func(kind string, dmg []byte, detail string, kinds bool, askModel bool) error {
 		if bytes.Equal(dmg, t.data) {
 			return nil
 		}
+		extra := extraLoaders[dmgCount%len(extraLoaders)]
+		dmgCount++
+		cfgs := []sstReaderCfg{{"slice-default", true, false}, {"slice", false, true}, {extra, true, false}, {extra, false, true}}
+		res.Stat("loader:" + extra)
 		if err := os.WriteFile(dataPath, dmg, 0o644); err != nil {
 			return err
 		}
@@ -350,8 +357,14 @@ func sstDmgOne(res *Result, drv *Driver, r *Rng, t *sstDmgTable, idx int, dir st
 	}
 	for _, pos := range positions {
 		reps := []byte{0x00, 0xff, 0x91, 0x8d, 0x4c}
-		for b := 0; b < 8; b++ {
-			reps = append(reps, t.data[pos]^(1<<b))
+		if tier == "thorough" {
+			for b := 0; b < 8; b++ {
+				reps = append(reps, t.data[pos]^(1<<b))
+			}
+		} else { // five of the eight bit flips, rotating with the position
+			for _, b := range []int{pos % 8, (pos + 1) % 8, (pos + 3) % 8, (pos + 5) % 8, (pos + 6) % 8} {
+				reps = append(reps, t.data[pos]^(1<<b))
+			}
 		}
 		if tier == "thorough" && len(t.data) <= 120 {
 			reps = reps[:0]
